@@ -103,35 +103,82 @@ func (d *rdb) createdb() {
 	})
 }
 
+// execStmt runs one statement on the real engine (no trace output).
+func (d *rdb) execStmt(q string) string {
+	st, err := engine.VerifParseSQL(q)
+	if err != nil {
+		return "parseerr " + sqlErrKind(err)
+	}
+	switch s := st.(type) {
+	case sql.CreateTable:
+		err = engine.EvaluateCreateTable(s, d.rs)
+		if err == nil {
+			d.tables = append(d.tables, s.Name)
+		}
+	case sql.InsertStatement:
+		_, err = engine.EvaluateInsert(s, d.rs)
+	case sql.UpdateStatementSearched:
+		err = engine.EvaluateUpdate(s, d.rs)
+	case sql.DeleteStatementSearched:
+		_, err = engine.EvaluateDelete(s, d.rs)
+	default:
+		return "notdml"
+	}
+	return outcome(err)
+}
+
 func (d *rdb) stmt(q string) string {
 	d.cfg.tr.Op("stmt %s", hxs(q))
 	res := ""
 	d.guard(func() string {
-		st, err := engine.VerifParseSQL(q)
-		if err != nil {
-			res = "parseerr " + sqlErrKind(err)
-			return res
-		}
-		switch s := st.(type) {
-		case sql.CreateTable:
-			err = engine.EvaluateCreateTable(s, d.rs)
-			if err == nil {
-				d.tables = append(d.tables, s.Name)
-			}
-		case sql.InsertStatement:
-			_, err = engine.EvaluateInsert(s, d.rs)
-		case sql.UpdateStatementSearched:
-			err = engine.EvaluateUpdate(s, d.rs)
-		case sql.DeleteStatementSearched:
-			_, err = engine.EvaluateDelete(s, d.rs)
-		default:
-			res = "notdml"
-			return res
-		}
-		res = outcome(err)
+		res = d.execStmt(q)
 		return res
 	})
 	return res
+}
+
+// stmtWithLogCrashPoints runs the statement while capturing a crash image before every write and
+// sync on the log file (both cut modes), then has every image recovered and inspected.
+func (d *rdb) stmtWithLogCrashPoints(q string, probes []string) string {
+	type img struct {
+		k   int
+		cut string
+		dir string
+	}
+	var images []img
+	walPath := "data/" + d.name + "/wal"
+	synced := fileLen(walPath)
+	k := 0
+	var frame int64
+	storage.VerifSetHook(func(ev string, arg uint64) {
+		if !strings.HasPrefix(ev, "wal.") {
+			return
+		}
+		images = append(images, img{k, "write", d.captureImage(-1)}, img{k, "sync", d.captureImage(synced)})
+		switch ev {
+		case "wal.len":
+			frame = 4 + int64(arg)
+		case "wal.sync":
+			synced += frame // this record is durable once the sync returns, i.e. at the next event
+		}
+		k++
+	})
+	res := d.stmt(q)
+	storage.VerifSetHook(nil)
+	for _, im := range images {
+		d.cfg.tr.Op("image %d %s %s", im.k, im.cut, strings.Join(hexAll(probes), " "))
+		d.guard(func() string { d.inspectImage(im.dir, probes); return "" })
+		d.cfg.st.Inc("crash-images")
+	}
+	return res
+}
+
+func hexAll(l []string) []string {
+	out := make([]string, len(l))
+	for i, s := range l {
+		out[i] = hxs(s)
+	}
+	return out
 }
 
 func (d *rdb) insertv(table string, cols []string, rows [][]interface{}) string {
@@ -610,6 +657,12 @@ func runDB(cfg *config) {
 			id++
 			runFailures(cfg, id, r.Fork())
 		}
+	case "c03":
+		n := 6 * cfg.scale
+		for i := 0; i < n; i++ {
+			id++
+			runLogCrashes(cfg, id, r.Fork())
+		}
 	case "c02":
 		n := 12 * cfg.scale
 		for i := 0; i < n; i++ {
@@ -625,7 +678,7 @@ func replayDB(cfg *config, id int, lines []string) {
 	cfg.tr.Case(id)
 	d := &rdb{cfg: cfg, name: fmt.Sprintf("r%d", id)}
 	defer d.close()
-	for _, l := range lines {
+	for li, l := range lines {
 		f := strings.Fields(l)
 		if len(f) == 0 {
 			continue
@@ -636,7 +689,17 @@ func replayDB(cfg *config, id int, lines []string) {
 		switch f[0] {
 		case "createdb":
 			d.createdb()
+		case "image", "fimage":
+			// produced by the statement / flush before it
 		case "stmt":
+			if li+1 < len(lines) && strings.HasPrefix(lines[li+1], "image ") {
+				var probes []string
+				for _, h := range strings.Fields(lines[li+1])[3:] {
+					probes = append(probes, unhex(h))
+				}
+				d.stmtWithLogCrashPoints(unhex(f[1]), probes)
+				continue
+			}
 			d.stmt(unhex(f[1]))
 		case "insertv":
 			var cols []string
@@ -757,6 +820,83 @@ func runFailures(cfg *config, id int, r *hx.Rng) {
 			d.stmt("INSERT INTO u1 (x) VALUES (1, 2)")
 		}
 		check()
+	}
+	if d.rs != nil {
+		d.dump()
+	}
+	cfg.st.Seen(fmt.Sprint(id), true)
+}
+
+// runLogCrashes (C03): a history in which chosen DML statements are crashed before each of their
+// log writes / syncs; every image is recovered, inspected and probed with further statements.
+func runLogCrashes(cfg *config, id int, r *hx.Rng) {
+	cfg.tr.Case(id)
+	d := &rdb{cfg: cfg, name: fmt.Sprintf("l%d", id)}
+	defer d.close()
+	d.createdb()
+	t := genSchema2(r, 1, 4)
+	d.stmt(createText(t))
+	pre := r.Range(0, 10) // rows before: leaf and root splits fall inside the crashed statements
+	for i := 0; i < pre; i++ {
+		d.insertv(t.name, nil, [][]interface{}{genRowValues(r, t, false)})
+	}
+	if r.Bool() {
+		d.flush()
+	}
+	for s, n := 0, r.Range(2, 5); s < n && d.rs != nil; s++ {
+		var q string
+		switch r.Intn(4) {
+		case 0:
+			q = "UPDATE " + t.name + " SET " + genSet(r, t)
+			if r.Bool() {
+				q += " WHERE " + genWhere(r, t)
+			}
+		case 1:
+			q = "DELETE FROM " + t.name + " WHERE " + genWhere(r, t)
+		default:
+			var rows [][]interface{}
+			for k, m := 0, r.Range(1, 4); k < m; k++ {
+				row := genRowValues(r, t, false)
+				for i, v := range row {
+					if x, ok := v.(int64); ok && x < 0 {
+						row[i] = -x - 1
+					}
+					if v == nil {
+						row[i] = genRowValues(r, &gtable{cols: []gcol{t.cols[i]}}, false)[0]
+						if x, ok := row[i].(int64); ok && x < 0 {
+							row[i] = int64(1)
+						}
+						if row[i] == nil {
+							row[i] = int64(0)
+							if t.cols[i].ty == "varchar" {
+								row[i] = "v"
+							} else if t.cols[i].ty == "boolean" {
+								row[i] = true
+							}
+						}
+					}
+				}
+				rows = append(rows, row)
+			}
+			q = insertText(t, rows, r.Bool())
+		}
+		probeRow := genRowValues(r, t, false)
+		for i, v := range probeRow {
+			if x, ok := v.(int64); ok && x < 0 || v == nil {
+				probeRow[i] = int64(1)
+				if t.cols[i].ty == "varchar" {
+					probeRow[i] = "p"
+				} else if t.cols[i].ty == "boolean" {
+					probeRow[i] = false
+				}
+			}
+		}
+		probes := []string{insertText(t, [][]interface{}{probeRow}, false), insertText(t, [][]interface{}{probeRow, probeRow}, false)}
+		d.stmtWithLogCrashPoints(q, probes)
+		d.selectEvery()
+		if r.Chance(1, 3) {
+			d.flush()
+		}
 	}
 	if d.rs != nil {
 		d.dump()
